@@ -1,5 +1,6 @@
 import Hyeong.Lemmas.DbgRun
 import Hyeong.Lemmas.DbgQuiet
+import Hyeong.Lemmas.DbgRunTo
 import Hyeong.Lemmas.WorldSim
 /-!
 # C11 — the debugger shows the true state, steps back exactly, and never crashes
@@ -89,6 +90,20 @@ theorem run_stops_first_bp (fname : List Char) (pcode : List PCmd) (code : List 
   unfold dbgTrans
   simp only [hh, h1, ↓reduceIte, hr]
   split <;> rfl
+
+/-- `run`, the whole stretch: while running, if the next `k` commands execute without meeting a breakpoint
+or the end of the program and the command reached then carries a breakpoint, the session continues — for
+every amount of fuel — exactly as from the prompt at that command, with those `k` commands on the history,
+after showing (once) everything pending and everything they wrote. (`run` itself first executes one
+command unconditionally and then behaves like this; `run_stops_first_bp` is the one-iteration version.) -/
+theorem run_to_first_bp (fname : List Char) (pcode : List PCmd) (code : List Cmd) (lines : List (List Char))
+    (k : Nat) (d dk : Dbg N) (shown : List Char) (fuel : Nat) (hr : d.running = true) (hne : d.hist ≠ [])
+    (hs : dbgSteps code lines k d = some dk)
+    (hno : ∀ i, i < k → ∀ di, dbgSteps code lines i d = some di → di.loc < code.length ∧ d.bps.contains di.loc = false)
+    (hl : dk.loc < code.length) (hb : d.bps.contains dk.loc = true) :
+    debugLoop fname pcode code (fuel + k + 1) lines d shown =
+      debugLoop fname pcode code fuel lines { (flushBufs dk).1 with running := false } (shown ++ showBuffers dk.bufO dk.bufE) :=
+  HyE.run_to_first_bp fname pcode code lines k d dk shown fuel hr hne hs hno hl hb
 
 /-- Every character the program writes is shown exactly once, in order — the four facts that say so:
 
